@@ -682,9 +682,9 @@ def run_attn_fn_case(ctx, cfg, rg, K, index):
                 'attn.noninterference:fn.dead_keys_weights', lambda: dict(detail, diff=_diff(res2['lw'], res['lw'])))
 
     # NNX dot_product_attention: fused jax.nn path (module=None), and the explicit-weights path taken when weights are sown
-    # (the fused path rejects value depth != query/key depth: outside this property, so it only gets Dv == D)
+    # (value depth != query/key depth is documented ([..., kv_length, num_heads, v_depth_per_head]) and accepted by Linen)
     ctx.op('nnx.dot_product_attention')
-    if dv == d:
+    if True:
       no = np.asarray(nnx_fast(jq, jk, jv, jb, jm))
       ctx.check(_close(no, o_ref, core.TOL_FORMULA), 'attn.output:nnx.fn', lambda: dict(detail, mask_dtype=mname, diff=_diff(no, o_ref)))
       if dead:
